@@ -134,5 +134,5 @@ def _f_real10(failure):
     return ir.jdump(ir.canon(T, a)) == ir.jdump(ir.canon(T, b))
 
 
-FINDINGS = {'F04-real10-float': _f_real10, 'F02-tagged-any-indef': _f_any_indef,
+FINDINGS = {'F04-real10-float': _f_real10,
             'F08-nested-bitstring-segments': _f_nested_bits}
